@@ -125,7 +125,7 @@ Example period_independent_ex :
 Proof.
   assert (E : erase_ops ex_ops_a = erase_ops ex_ops_b) by reflexivity.
   split; [exact E|]. split; [discriminate|]. split; [|vm_compute; reflexivity].
-  apply (proj2 period_independent); [reflexivity|reflexivity|exact E].
+  apply (proj1 (proj2 period_independent)); [reflexivity|reflexivity|exact E].
 Qed.
 Example release_in_any_period_ex :
   run_from ex_ds true d_init ([OpPeriod PStart; OpStage true; OpAlloc EMalloc 1 4608 1] ++ [OpWrite 4608 [7]] ++ [OpPeriod PDisable; OpStage false; OpFree ENew 0 (Some 4608)]) =
